@@ -69,11 +69,30 @@ var buildArches = []string{"amd64", "i386", "arm64"}
 func genOrderCase(t *rapid.T) OrderCase {
 	n := rapid.IntRange(1, 12).Draw(t, "n")
 	c := OrderCase{Arch: rapid.SampledFrom(buildArches).Draw(t, "arch")}
+	// source names: either src<i>, or built from a few short syllables so that names are prefixes,
+	// suffixes and concatenations of one another (go / gocode / codespell / spell)
+	syll := []string{"a", "b", "ab", "ba", "go", "code", "spell", "lib"}
+	usedNames := map[string]bool{}
+	composed := rapid.Bool().Draw(t, "composedNames")
 	for i := 0; i < n; i++ {
-		s := SrcModel{Name: fmt.Sprintf("src%d", i), BD: make([]DepAST, 3)}
+		name := fmt.Sprintf("src%d", i)
+		if composed {
+			for try := 0; try < 20; try++ {
+				cand := rapid.SampledFrom(syll).Draw(t, "sy1")
+				if rapid.Bool().Draw(t, "two") {
+					cand += rapid.SampledFrom(syll).Draw(t, "sy2")
+				}
+				if !usedNames[cand] {
+					name = cand
+					break
+				}
+			}
+		}
+		usedNames[name] = true
+		s := SrcModel{Name: name, BD: make([]DepAST, 3)}
 		nb := rapid.IntRange(1, 4).Draw(t, "nb")
 		for j := 0; j < nb; j++ {
-			s.Bins = append(s.Bins, fmt.Sprintf("%s%d-%s", rapid.SampledFrom([]string{"lib", "python3-", "", "lib"}).Draw(t, "bp"), i, rapid.SampledFrom([]string{"dev", "doc", "bin", "data", "tools", "1", "dbg"}).Draw(t, "bs")+itoa(j)))
+			s.Bins = append(s.Bins, fmt.Sprintf("%sx%d-%s", rapid.SampledFrom([]string{"lib", "python3-", "", "lib"}).Draw(t, "bp"), i, rapid.SampledFrom([]string{"dev", "doc", "bin", "data", "tools", "1", "dbg"}).Draw(t, "bs")+itoa(j)))
 		}
 		s.FoldMask = genFoldMask(t, "fold")
 		for k := range s.Styles {
@@ -236,7 +255,7 @@ func hasCycle(n int, edges [][2]int) (cycle bool, onlySelf bool) {
 
 var specC19 = Register(&Spec[OrderCase]{
 	Prop: "C19", Name: "order",
-	Rule: "random build-dependency graphs over 1..12 sources with 1..4 uniquely named binaries each; edges 'v build-depends on binary b of u' chosen acyclic (forward edges over a hidden order), with a planted cycle of length 2..4 (1/4 of cases) or a self-dependency; each edge goes to Build-Depends, -Arch or -Indep, as a plain relation or inside alternatives/arch lists so that the in-graph binary is, or deliberately is not, the first alternative admitted for the build architecture, with substvars and out-of-graph packages mixed in; 3/4 of edges go through a binary that is NOT the first of its source; every source is rendered as real .dsc text (Binary 'a, b, c' single-line or folded; dependency fields single-line, folded or wrap-and-sort), parsed with control.ParseDsc and handed over in a generated permutation. Oracle: model edge set E (C06 selection oracle); E acyclic => no error, result is a permutation of the input and pos(u) < pos(v) for every edge; a cycle through >= 2 sources => error; only self-dependencies => either; three runs agree. Non-trivial: >= 1 edge through a non-first binary or decided by an alternative; distinct by case.",
+	Rule: "random build-dependency graphs over 1..12 sources (named src<i>, or composed of short syllables so that names are prefixes/suffixes/concatenations of each other) with 1..4 uniquely named binaries each; edges 'v build-depends on binary b of u' chosen acyclic (forward edges over a hidden order), with a planted cycle of length 2..4 (1/4 of cases) or a self-dependency; each edge goes to Build-Depends, -Arch or -Indep, as a plain relation or inside alternatives/arch lists so that the in-graph binary is, or deliberately is not, the first alternative admitted for the build architecture, with substvars and out-of-graph packages mixed in; 3/4 of edges go through a binary that is NOT the first of its source; every source is rendered as real .dsc text (Binary 'a, b, c' single-line or folded; dependency fields single-line, folded or wrap-and-sort), parsed with control.ParseDsc and handed over in a generated permutation. Oracle: model edge set E (C06 selection oracle); E acyclic => no error, result is a permutation of the input and pos(u) < pos(v) for every edge; a cycle through >= 2 sources => error; only self-dependencies => either; three runs agree. Non-trivial: >= 1 edge through a non-first binary or decided by an alternative; distinct by case.",
 	Check: func(c OrderCase, r *Recorder) error {
 		n := len(c.Sources)
 		edges, later, viaAlt := modelEdges(c)
